@@ -408,6 +408,7 @@ def run(prog: Program, L: Ledger) -> None:
 
     # ------------------------------------------------ drivers' context settings
     _check_context_settings(prog, L, subj)
+    _check_driver_from_dict_copies(prog, L, subj)
 
 
 def _context_slot(getter: FuncInfo) -> str | None:
@@ -629,3 +630,50 @@ def _check_context_settings(prog: Program, L: Ledger, subj) -> None:
                     L.check(bool(roots) and roots <= {slot, "_" + slot, slot.lstrip("_")}, "S5", f"{ci.name}.{pname}:context-value", f"{val.func.module.relpath}:{val.expr.lineno}",
                             f"simulation setting `{pname}` (context slot `{slot}`) is serialised as `{norm(val.expr)[:80]}`, which does not read that slot",
                             f"set sim.{pname} to a value different from `{norm(val.expr)[:60]}`; the rebuilt simulation has the latter", norm(val.expr)[:100])
+
+
+def _check_driver_from_dict_copies(prog: Program, L: Ledger, subj) -> None:
+    """S7: a simulation rebuilt from a dictionary owns its state.  The driver's from_dict installs objects taken from the
+    dictionary directly on the live simulation (the Atoms object, context arrays, the generator state): it must work on a
+    deep copy of its argument — otherwise the rebuilt simulation and the dictionary (and a second simulation rebuilt from
+    the same dictionary) share one Atoms object, and serialising again no longer gives the dictionary it was built from."""
+    from ..normalize import flat
+
+    L.rule("S7", "the drivers' from_dict rebinds its argument to copy.deepcopy(argument) before reading it (or deep-copies every value it installs)")
+    seen = set()
+    n = 0
+    for ci, _concrete in subj.get("driver", []):
+        fd = prog.lookup_method(ci, "from_dict")
+        if fd is None or fd.qualname in seen:
+            continue
+        seen.add(fd.qualname)
+        params = [a.arg for a in fd.node.args.args]
+        if len(params) < 2:
+            continue
+        dp = params[1]
+        body = [st for st in flat(prog, fd, fd.cls).body() if not (isinstance(st, ast.Expr) and isinstance(st.value, ast.Constant))]
+        n += 1
+        ok = False
+        first_read = None
+        for st in body:
+            reads = [x for x in ast.walk(st) if isinstance(x, ast.Name) and x.id == dp and isinstance(x.ctx, ast.Load)]
+            if not reads:
+                continue
+            if isinstance(st, ast.Assign) and len(st.targets) == 1 and isinstance(st.targets[0], ast.Name) and st.targets[0].id == dp and isinstance(st.value, ast.Call) \
+                    and norm(st.value.func) in ("deepcopy", "copy.deepcopy") and len(st.value.args) == 1 and norm(st.value.args[0]) == dp:
+                ok = True
+            else:
+                first_read = st
+            break
+        if not ok and first_read is not None:
+            # alternative: every read of the argument sits inside a deepcopy(...) call
+            mod_ = ast.Module(body=body, type_ignores=[])
+            covered = set()
+            for c in ast.walk(mod_):
+                if isinstance(c, ast.Call) and norm(c.func) in ("deepcopy", "copy.deepcopy"):
+                    covered |= {id(x) for x in ast.walk(c)}
+            ok = all(id(x) in covered for x in ast.walk(mod_) if isinstance(x, ast.Name) and x.id == dp and isinstance(x.ctx, ast.Load))
+        L.check(ok, "S7", f"{fd.qualname}:owns-its-state", f"{fd.module.relpath}:{first_read.lineno if first_read is not None else fd.node.lineno}",
+                f"{fd.qualname} reads its argument through `{norm(first_read)[:80] if first_read is not None else ''}` without a deep copy: the Atoms object and the context values of the rebuilt simulation ARE the objects inside the dictionary",
+                f"data = read_json(f); a = Sim.from_dict(data); a.run(n); b = Sim.from_dict(data): b.atoms is a.atoms, b starts from a's evolved positions with the file's step counter; data['atoms'] itself has changed", dp)
+    L.floor("driver from_dict implementations checked for ownership of their state", n, 1)
